@@ -88,7 +88,7 @@ class Graph:
                                     break
             return {'$ref': oid}
         if name == 'VDate':
-            return {'$date': [v.arg(0).as_long(), v.arg(1).as_long()]}
+            return {'$date': [v.arg(0).as_long(), v.arg(1).as_long(), v.arg(2).as_long()]}
         if name == 'VFunc':
             return {'$func': v.arg(0).as_long()}
         if name == 'VRegex':
@@ -139,7 +139,7 @@ def ground_value(x):
         if '$float' in x:
             return VFloat(z3.RealVal(x['$float']))
         if '$date' in x:
-            return VDate(z3.IntVal(x['$date'][0]), z3.IntVal(x['$date'][1]))
+            return VDate(z3.IntVal(x['$date'][0]), z3.IntVal(x['$date'][1]), z3.IntVal(x['$date'][2] if len(x['$date']) > 2 else 0))
         if '$func' in x:
             return VFunc(z3.IntVal(x['$func']))
         if '$regex' in x:
